@@ -240,6 +240,11 @@ PROPERTIES["C04"] = {
           covers_unsat_ok=["entry accepted", "entry rejected"]) for m in ("newc", "crc", "stripped", "anymagic") for (t, n) in ((0, 0), (2, 0), (4, 1), (12, 1))]
     + [MH("c04_fileiter_%d" % n, inputs="header file size: any 64-bit value; %d symbolic content bytes in a well-formed newc archive" % n, bounds="FileIterator::next (Package::files) on one entry", timeout=600)
        for n in (0, 1, 3, 4)]
+    + [MH("c04_fileiter_stripped_%d" % n, inputs="header file size: any 64-bit value; a stripped (07070X) archive entry followed by %d content bytes" % n, timeout=600,
+          bounds="FileIterator::next on one stripped entry whose size comes from the header (incl. sizes next to u64::MAX: skip and padding arithmetic)") for n in (0, 5)]
+    + [MH("c04_fentries_short_" + t, inputs="two files; RPMTAG_%s holds one item, every other per-file array two; values symbolic" % t, timeout=600,
+          bounds="get_file_entries on per-file arrays of unequal length: an error or a shorter list, never a panic") for t in
+       ("FILEMODES", "FILEUSERNAME", "FILEGROUPNAME", "FILEDIGESTS", "FILEMTIMES", "FILEFLAGS", "FILELINKTOS", "FILESIZES", "DIRINDEXES", "FILECAPS")]
     + [MH("c04_paths_%d_%d" % s, inputs="%d base names / directory indexes (any u32), %d directory names" % s, bounds="get_file_paths", timeout=600,
           covers_unsat_ok=["paths returned", "error returned"]) for s in ((1, 1), (2, 1), (2, 2), (1, 0), (0, 0), (3, 2))]
     + [MH("c04_hdr_bin_18_0", inputs="as c04_hdr_18_0 but store bytes unrestricted (0..255)", bounds="string decoding of non-ASCII bytes is outside the bound", timeout=900,
@@ -436,6 +441,9 @@ PROPERTIES["C11"] = {
                                              ("user3", "three files owned by a:g, b:h, c:g", 1800, "quick"),
                                              ("dirs2", "two root-owned files in two directories (/d/f0, /e/f1)", 900, "quick"),
                                              ("late_sd", "two files, the source date set after the files were added", 900, "quick"),
+                                             ("host", "one root-owned file, build_host set (no cookie given)", 600, "quick"),
+                                             ("duprec", "two files owned by a:g and b:h plus an explicit recommends(Dependency::user(\"a\")): the same dependency twice", 1800, "quick"),
+                                             ("hostcookie", "one root-owned file, build_host and cookie set", 600, "thorough"),
                                              ("dirs3", "three files in three directories at different depths, one owned by a:g", 3600, "thorough"),
                                              ("sym2", "two files whose owner and group names are symbolic lower-case letters (every combination)", 7200, "thorough"))],
     "bounds": "up to three files with one content byte each; no compression; user/group names literal (quick) or one symbolic letter (thorough); source date, modification times symbolic; "
@@ -481,12 +489,15 @@ PROPERTIES["C06"] = {
 PROPERTIES["C07"] = {
     "harnesses": [MH("c07_rt_" + "_".join(map(str, sz)), inputs="files of %s symbolic content bytes" % "/".join(map(str, sz)), timeout=900,
                      bounds="PackageBuilder .. build() then Package::files() / FileIterator::next: cpio writer and reader, padding at every size mod 4, order by path") for sz in ((0,), (1,), (3,), (4,), (5,), (2, 3), (4, 0), (1, 2, 3))]
+    + [MH("c07_rt_utf8_3_2", inputs="files of 3/2 symbolic content bytes whose base names contain a two-byte UTF-8 character", timeout=900, bounds="as c07_rt_*: name length in bytes differs from the character count"),
+       MH("c07_rt_ghost_3_2", inputs="files of 3/2 symbolic content bytes, the first flagged %ghost", timeout=900, bounds="as c07_rt_*: the builder archives %ghost files like any other, iteration must return their bytes"),
+       MH("c07_rt_ghost_0_1", inputs="files of 0/1 content bytes, the first flagged %ghost", timeout=900, bounds="as c07_rt_*")]
     + [MH("c07_rt_%s_3_2" % c, inputs="files of 3/2 symbolic content bytes, %s compression with a symbolic level" % c, timeout=900, covers_unsat_ok=["package built"],
           bounds="as c07_rt_*, compressor = uninterpreted function, decompressor = its inverse on exactly the compressor's outputs") for c in ("gzip", "xz", "bzip2", "zstd")]
     + [MH("c04_fileiter_%d" % n, role="foreign", inputs="header file size: any 64-bit value; %d symbolic content bytes in a well-formed newc archive" % n, bounds="foreign package: FileIterator::next returns the archive's bytes whatever size the header records", timeout=600)
        for n in (0, 1, 3, 4)],
     "bounds": "up to three files of 0..5 content bytes each (every size mod 4), contents symbolic, uncompressed payload, standard (newc) cpio",
-    "outside": "what the compression libraries really do (FFI; compressor/decompressor modelled as an uninterpreted function and its inverse); the stripped (large-file) cpio format, which needs more than 4 GiB of content; files of more than 5 bytes; names other than /d/f<i>; foreign packages beyond the one-entry harnesses",
+    "outside": "what the compression libraries really do (FFI; compressor/decompressor modelled as an uninterpreted function and its inverse); the stripped (large-file) cpio format on the building side, which needs more than 4 GiB of content; files of more than 5 bytes; names other than /d/f<i> and /d/\u00e9<i>; foreign packages beyond the one-entry harnesses",
     "assumptions": A_MIR + _A_BUILD,
     "technique": None,
 }
